@@ -14,6 +14,8 @@ import (
 	"path/filepath"
 	"sort"
 	"strings"
+	"syscall"
+	"time"
 )
 
 func init() { props["C20"] = runC20 }
@@ -93,13 +95,33 @@ func runC20(c *Cfg) {
 		return
 	}
 	root := NewRng(c.Seed).Sub()
-	c20Witnesses(c)
-	c20FlatFamily(c, root.Sub())
-	c20Generated(c, root.Sub())
-	c20Seeds(c, root.Sub())
-	if !c.Focus {
-		c20CLI(c, root.Sub())
+	// CPU accounting per family (self + reaped children, user+sys), reported in
+	// stats.json as cpu-seconds/<family> so that the tier sizes can be kept in budget.
+	fam := func(name string, f func()) {
+		before := c20CPU()
+		f()
+		secs := int((c20CPU() - before).Seconds() + 0.5)
+		for i := 0; i < secs; i++ {
+			c.Count("cpu-seconds/" + name)
+		}
 	}
+	fam("witnesses", func() { c20Witnesses(c) })
+	fam("flat", func() { c20FlatFamily(c, root.Sub()) })
+	fam("generated", func() { c20Generated(c, root.Sub()) })
+	fam("seeds", func() { c20Seeds(c, root.Sub()) })
+	if !c.Focus {
+		fam("cli", func() { c20CLI(c, root.Sub()) })
+	}
+}
+
+func c20CPU() time.Duration {
+	var self, kids syscall.Rusage
+	syscall.Getrusage(syscall.RUSAGE_SELF, &self)
+	syscall.Getrusage(syscall.RUSAGE_CHILDREN, &kids)
+	tv := func(t syscall.Timeval) time.Duration {
+		return time.Duration(t.Sec)*time.Second + time.Duration(t.Usec)*time.Microsecond
+	}
+	return tv(self.Utime) + tv(self.Stime) + tv(kids.Utime) + tv(kids.Stime)
 }
 
 func c20ReadDir(dir string) c20Pkg {
